@@ -486,6 +486,10 @@ func c14RetryRules(c *Ctx) error {
 	}
 	c.P("Definition msg_assigner_pick_receiver : string := %s.", CoqStr(recv))
 
+	if err := c14WeightsValidation(c, prod); err != nil {
+		return err
+	}
+
 	// the truncation at the end of GetMessagesForRelaying
 	ck, err := c.Parse("x/consensus/keeper/concensus_keeper.go")
 	if err != nil {
@@ -509,5 +513,141 @@ func c14RetryRules(c *Ctx) error {
 		return fmt.Errorf("GetMessagesForRelaying: expected exactly one truncation by defaultResponseMessageCount, got %d", len(capShape))
 	}
 	c.P("Definition relay_cap_shape : string := %s.", CoqStr(capShape[0]))
+	return nil
+}
+
+// c14WeightsValidation: relay weights are validated when they are set (C09 repair c16efebc).
+// Pins: SetRelayWeights calls weights.Validate() and returns its error before anything is written;
+// Validate parses the five strings (DecValues) and rejects a negative weight or one above
+// maxRelayWeight; no other production code assigns ChainInfo.RelayWeights (the literal defaults of
+// AddSupportForNewChain aside).
+func c14WeightsValidation(c *Ctx, evmk []*ast.File) error {
+	sw := FindFuncIn(evmk, "Keeper", "SetRelayWeights")
+	if sw == nil {
+		return fmt.Errorf("Keeper.SetRelayWeights not found")
+	}
+	validateAt, writeAt := -1, -1
+	for i, st := range sw.Body.List {
+		if is, ok := st.(*ast.IfStmt); ok && c.Src(is.Cond) == "weights != nil" && len(is.Body.List) == 1 && validateAt < 0 {
+			inner, ok := is.Body.List[0].(*ast.IfStmt)
+			if ok && inner.Init != nil && c.Src(inner.Init) == "err := weights.Validate()" && c.Src(inner.Cond) == "err != nil" &&
+				len(inner.Body.List) == 1 && c.Src(inner.Body.List[0]) == "return err" {
+				validateAt = i
+			}
+		}
+		w := false
+		ast.Inspect(st, func(n ast.Node) bool {
+			switch x := n.(type) {
+			case *ast.AssignStmt:
+				for _, l := range x.Lhs {
+					if strings.HasSuffix(c.Src(l), ".RelayWeights") {
+						w = true
+					}
+				}
+			case *ast.CallExpr:
+				if se, ok := x.Fun.(*ast.SelectorExpr); ok && (se.Sel.Name == "Save" || se.Sel.Name == "updateChainInfo" || se.Sel.Name == "Set") {
+					w = true
+				}
+			}
+			return true
+		})
+		if w && writeAt < 0 {
+			writeAt = i
+		}
+	}
+	if writeAt < 0 {
+		return fmt.Errorf("SetRelayWeights: the write of the weights was not recognised")
+	}
+	if validateAt < 0 && len(Calls(sw.Body, "Validate")) > 0 {
+		return fmt.Errorf("SetRelayWeights: a Validate call is present but not in the shape `if weights != nil { if err := weights.Validate(); err != nil { return err } }`")
+	}
+	c.P("(* x/evm/keeper/keeper.go:SetRelayWeights, x/evm/types/relay_weights.go:Validate *)")
+	c.P("Definition set_relay_weights_validates_before_write : bool := %v.", validateAt >= 0 && validateAt < writeAt)
+
+	rw, err := c.Parse("x/evm/types/relay_weights.go")
+	if err != nil {
+		return err
+	}
+	vd := FindFunc(rw, "RelayWeights", "Validate")
+	if vd == nil {
+		// a tree before the repair: nothing is validated
+		c.P("Definition max_relay_weight : Z := 0.")
+		c.P("Definition relay_weights_validate_rejects : list string := [].")
+		c.P("Definition relay_weights_validated_fields : list string := [].")
+	} else {
+		var mxLit string
+		for _, d := range rw.Decls {
+			gd, ok := d.(*ast.GenDecl)
+			if !ok {
+				continue
+			}
+			for _, sp := range gd.Specs {
+				vs, ok := sp.(*ast.ValueSpec)
+				if ok && len(vs.Names) == 1 && vs.Names[0].Name == "maxRelayWeight" && len(vs.Values) == 1 {
+					ce, ok := vs.Values[0].(*ast.CallExpr)
+					if ok && strings.HasSuffix(c.Src(ce.Fun), "LegacyNewDec") && len(ce.Args) == 1 {
+						if bl, ok := ce.Args[0].(*ast.BasicLit); ok && bl.Kind == token.INT {
+							mxLit = strings.ReplaceAll(bl.Value, "_", "")
+						}
+					}
+				}
+			}
+		}
+		if mxLit == "" {
+			return fmt.Errorf("maxRelayWeight: expected math.LegacyNewDec(<int literal>)")
+		}
+		if len(Calls(vd.Body, "DecValues")) != 1 {
+			return fmt.Errorf("RelayWeights.Validate: expected exactly one DecValues call")
+		}
+		var conds, fields []string
+		ast.Inspect(vd.Body, func(n ast.Node) bool {
+			switch x := n.(type) {
+			case *ast.IfStmt:
+				if c.Src(x.Cond) != "err != nil" {
+					conds = append(conds, c.Src(x.Cond))
+				}
+			case *ast.CompositeLit:
+				if len(x.Elts) == 2 && x.Type == nil {
+					if sel, ok := x.Elts[1].(*ast.SelectorExpr); ok && c.Src(sel.X) == "w" {
+						fields = append(fields, sel.Sel.Name)
+					}
+				}
+			}
+			return true
+		})
+		c.P("Definition max_relay_weight : Z := %s.", mxLit)
+		c.P("Definition relay_weights_validate_rejects : list string := %s.", CoqStrList(conds))
+		c.P("Definition relay_weights_validated_fields : list string := %s.", CoqStrList(fields))
+	}
+	// who else assigns ChainInfo.RelayWeights
+	var writers []string
+	for _, f := range evmk {
+		for _, d := range f.Decls {
+			fd, ok := d.(*ast.FuncDecl)
+			if !ok || fd.Body == nil {
+				continue
+			}
+			ast.Inspect(fd.Body, func(n ast.Node) bool {
+				switch x := n.(type) {
+				case *ast.AssignStmt:
+					for _, l := range x.Lhs {
+						if strings.HasSuffix(c.Src(l), ".RelayWeights") {
+							writers = append(writers, fd.Name.Name+": "+c.Src(x))
+						}
+					}
+				case *ast.KeyValueExpr:
+					if c.Src(x.Key) == "RelayWeights" {
+						v := c.Src(x.Value)
+						v = strings.Join(strings.Fields(v), " ")
+						writers = append(writers, fd.Name.Name+": literal "+v)
+					}
+				}
+				return true
+			})
+		}
+	}
+	sort.Strings(writers)
+	c.P("Definition relay_weights_writers : list string := %s.", CoqStrList(writers))
+	c.Info("relay_weights_writers", writers)
 	return nil
 }
